@@ -341,13 +341,17 @@ class MarkupTemplate(Template):
                     continue
 
                 if test(event, namespaces, ctxt) is True:
+                    # The tests that have seen the start event so far: those
+                    # of this window up to and including the one that matched
+                    seen = [mt[0] for mt in match_templates[start:idx + 1]]
                     if 'match_once' in hints:
                         del match_templates[idx]
                         idx -= 1
 
                     # Let the remaining match templates know about the event so
                     # they get a chance to update their internal state
-                    for test in [mt[0] for mt in match_templates[idx + 1:]]:
+                    remaining = [mt[0] for mt in match_templates[idx + 1:]]
+                    for test in remaining:
                         test(event, namespaces, ctxt, updateonly=True)
 
                     # Consume and store all events until an end event
@@ -388,11 +392,10 @@ class MarkupTemplate(Template):
                         for event in content:
                             pass
 
-                    # Let this match template and the remaining match
-                    # templates know about the last event in the
-                    # matched content, so they can update their
-                    # internal state accordingly
-                    for test in [mt[0] for mt in match_templates[idx:]]:
+                    # Let every match template that has seen the start event
+                    # know about the last event in the matched content, so
+                    # they can update their internal state accordingly
+                    for test in seen + remaining:
                         test(tail[0], namespaces, ctxt, updateonly=True)
 
                     break
